@@ -184,8 +184,11 @@ func frameRand(args []string) int {
 			}
 			if werr != nil {
 				// a randomised frame the encoder refuses is not part of the stream (e.g. a [string] grown past 65535 bytes)
+				// the contents stay within what the notations can carry ([string] <= 65535, byte fields <= 60000), so a
+				// refusal is a version-valid frame the encoder cannot encode
 				stream.Truncate(before)
 				skipped++
+				_ = enc.Encode(map[string]interface{}{"a": "refused", "d": fmt.Sprintf("%v %v: %v", f.Header.Version, f.Header.OpCode, werr)})
 				continue
 			}
 			written++
